@@ -121,4 +121,25 @@ def pick_cases(ctx, n_values: Sequence[int], families: Sequence[str], sam: bool 
         n = rng.choice(list(n_values))
         fam = rng.choice(list(families))
         values, exact = (gen.sam_game if sam else gen.sa_game)(rng, n, fam)
+        if rng.random() < 0.15:
+            # the same game in other units: a power of two keeps every value and every sum exactly representable
+            k = rng.choice([-40, -20, 20, 40])
+            values = [v * 2.0 ** k for v in values]
+            fam = f"{fam}*2^{k}"
         yield n, fam, values, exact
+
+
+def poison(ctx, n: int, computers) -> None:
+    """A computation that FAILS (singletons unknown: outside the computers' domain) and is survived by the caller; it
+    must leave no trace that influences the legal computations following in the same process."""
+    rng = ctx.rng
+    values, _ = gen.sa_game(rng, n, "int")
+    ex = gen.explorable(n)
+    for comp in computers:
+        g = sut.new_game(n, comp)
+        try:
+            sut.set_knowledge(g, values, [0, (1 << n) - 1] + rng.sample(ex, min(2, len(ex))))
+            g.compute_bounds()
+        except Exception:
+            pass
+        ctx.count("poison_calls")
